@@ -69,7 +69,7 @@ def _modules():
 def _quiet_excepthook(args):
     pass
 
-def wait_until(pred, timeout=10.0):
+def wait_until(pred, timeout=5.0):
     t0 = time.time()
     while not pred():
         if time.time() - t0 > timeout:
@@ -118,7 +118,8 @@ def run_main(argv, trigger=None, stdin=None, close_stdin_at_end=True):
         ctx.pcfg = self
         res.guesses.append(g)
         if trigger:
-            trigger(('GUESS', len(res.guesses), g, len(res.pops) - 1), ctx)
+            trigger(('GUESS', len(res.guesses), g, len(res.pops) - 1,
+                     len(res.guesses) - (res.pops[-1]['first_guess'] if res.pops else 0)), ctx)
     def rec_next(self):
         item = orig_next(self)
         ctx.pcfg = self.pcfg
